@@ -103,6 +103,8 @@ struct CaseZ {
     /// some constraint has the same variable in two positions: when fewer than two operand
     /// positions are ground the property does not say what happens, only soundness is judged
     aliased: bool,
+    /// (operand variable, partner variable): unified with each other by a separate `==`
+    partner: Option<(u32, u32)>,
 }
 
 fn cases(quick: bool) -> Vec<CaseZ> {
@@ -142,7 +144,61 @@ fn cases(quick: bool) -> Vec<CaseZ> {
                     }
                 }
                 for perm in permutations(&stmts) {
-                    out.push(CaseZ { program: Program { nq: used.len().max(1) as u32, body: perm }, cons: vec![con.clone()], explicit: explicit.clone(), aliased });
+                    out.push(CaseZ { program: Program { nq: used.len().max(1) as u32, body: perm }, cons: vec![con.clone()], explicit: explicit.clone(), aliased, partner: None });
+                }
+            }
+        }
+    }
+    // an operand that is unified with another variable by a separate `==` (either orientation,
+    // before or after the constraint): the value the constraint derives, or the value bound
+    // through the partner, must reach both
+    for times in [false, true] {
+        for pat in crate::e4::product(&operand_choices, 3) {
+            let con = Con { times, ops: [pat[0].clone(), pat[1].clone(), pat[2].clone()] };
+            let mut used: Vec<u32> = vec![];
+            for t in &pat {
+                if let T::V(i) = t {
+                    if !used.contains(i) {
+                        used.push(*i);
+                    }
+                }
+            }
+            if used.is_empty() || used.iter().enumerate().any(|(k, v)| *v != k as u32) {
+                continue;
+            }
+            // constants: one representative pair keeps the family small
+            if pat.iter().any(|t| matches!(t, T::I(n) if *n != 1 && *n != 3)) {
+                continue;
+            }
+            let aliased = pat.iter().filter(|t| t.is_var()).count() > used.len();
+            let n = used.len() as u32;
+            let vals: Vec<Option<i64>> = if quick { vec![None, Some(0), Some(3)] } else { vec![None, Some(-2), Some(0), Some(3)] };
+            for asg in crate::e4::product(&vals, used.len()) {
+                for which in 0..n {
+                    let p = n; // the partner variable
+                    for orient in 0..2 {
+                        for through_partner in [false, true] {
+                            if through_partner && asg[which as usize].is_none() {
+                                continue;
+                            }
+                            let mut stmts: Vec<G> = vec![goal_of(&con)];
+                            stmts.push(if orient == 0 { G::Eq(T::V(which), T::V(p)) } else { G::Eq(T::V(p), T::V(which)) });
+                            let mut explicit = BTreeMap::new();
+                            for (k, a) in asg.iter().enumerate() {
+                                if let Some(v) = a {
+                                    let target = if through_partner && k as u32 == which { p } else { k as u32 };
+                                    stmts.push(G::Eq(T::V(target), T::I(*v)));
+                                    explicit.insert(k as u32, *v);
+                                }
+                            }
+                            for (pi, perm) in permutations(&stmts).into_iter().enumerate() {
+                                if quick && stmts.len() >= 4 && pi % 3 != 0 {
+                                    continue;
+                                }
+                                out.push(CaseZ { program: Program { nq: n + 1, body: perm }, cons: vec![con.clone()], explicit: explicit.clone(), aliased, partner: Some((which, p)) });
+                            }
+                        }
+                    }
                 }
             }
         }
@@ -173,7 +229,7 @@ fn cases(quick: bool) -> Vec<CaseZ> {
                 if quick && pi % 2 == 1 {
                     continue;
                 }
-                out.push(CaseZ { program: Program { nq: 4, body: perm }, cons: vec![c1.clone(), c2.clone()], explicit: explicit.clone(), aliased: false });
+                out.push(CaseZ { program: Program { nq: 4, body: perm }, cons: vec![c1.clone(), c2.clone()], explicit: explicit.clone(), aliased: false, partner: None });
             }
         }
     }
@@ -222,7 +278,12 @@ fn check(c: &CaseZ, index: usize) -> (Vec<Violation>, &'static str) {
             let a = &out.answers[0];
             let mut class = "succeeds";
             for k in 0..c.program.nq {
-                match (b.get(&k), &a.terms[k as usize]) {
+                // the partner of an operand has the operand's value
+                let source = match c.partner {
+                    Some((op, p)) if p == k => op,
+                    _ => k,
+                };
+                match (b.get(&source), &a.terms[k as usize]) {
                     (Some(v), T::I(n)) if v == n => {}
                     (Some(v), got) => viols.push(mk(
                         if got.is_var() { "not-bound" } else { "wrong-value" },
@@ -248,7 +309,7 @@ fn check(c: &CaseZ, index: usize) -> (Vec<Violation>, &'static str) {
 
 pub fn run(ctx: &mut Ctx) {
     let quick = ctx.quick();
-    ctx.set("rule", json!("E3: plusz / timesz x every operand pattern over {x, y, z} and {-2, 0, 1, 3} (all aliasings) x every groundness pattern (each variable never bound or bound to one of the values by a separate `==`) x EVERY order of the statements, plus chains of two constraints sharing a variable; oracle: integer arithmetic closure (all ground -> equation must hold; two ground -> third bound to the unique solution, failure if none, still constrained if every integer works; fewer -> still constrained); never a panic. distinct_nontrivial = cases where a third operand is derived."));
+    ctx.set("rule", json!("E3: plusz / timesz x every operand pattern over {x, y, z} and {-2, 0, 1, 3} (all aliasings) x every groundness pattern (each variable never bound or bound to one of the values by a separate `==`) x EVERY order of the statements, plus chains of two constraints sharing a variable, plus single constraints one of whose operands is unified with a partner variable by a separate `==` (both orientations, the value bound directly or through the partner, every statement order; the partner is observed too); oracle: integer arithmetic closure (all ground -> equation must hold; two ground -> third bound to the unique solution, failure if none, still constrained if every integer works; fewer -> still constrained); never a panic. distinct_nontrivial = cases where a third operand is derived."));
     let cs = cases(quick);
     let sel: Vec<usize> = match &ctx.replay {
         Some(r) if r.family == "c19" => vec![r.index],
